@@ -446,6 +446,12 @@ Proof.
         exists fr. split; [exact Hin|]. unfold is_stop in Hs. destruct (sf_cmd fr); try discriminate. reflexivity.
       * intros A B. destruct (Fshut A B) as [C|(C1 & C2 & C3)]; [left; exact C|right].
         splits; auto. apply flat_nil_of_nil. exact C3.
+      * intros H. apply orb_true_iff in H. destruct H as [H|H]; [left; exact H|right].
+        apply Fstopsr. apply existsb_exists in H. destruct H as (fr & Hin & Hs).
+        exists fr. split; [exact Hin|]. unfold is_stop in Hs. destruct (sf_cmd fr); try discriminate. reflexivity.
+      * intros H. rewrite H. reflexivity.
+      * intros A B. destruct (Fsrstop A B) as (fr & Hin & Hc). apply orb_true_iff. right.
+        apply existsb_exists. exists fr. split; [exact Hin|]. unfold is_stop. rewrite Hc. reflexivity.
   - apply (act_ALinv w sd g p p' x' cbnew Ep Hout Hnew Hchan).
   - destruct sd; reflexivity.
 Qed.
@@ -496,12 +502,16 @@ Proof.
                        (m_sr (p_m p)) (s_sw (p_s p)) (vstop (view_of w (other sd) g)) (s_fault (p_s p))).
       eapply vstep_eq; [|apply (VS_writer v [] (m_buf (p_m p)) (s_sw (p_s p)) (m_sr (p_m p'))
                        (vstop (view_of w (other sd) g) || existsb is_stop sn) (s_fault (p_s p)))];
-        [cbn [v vA vX vP vY vD vrsr vrmsw vwmsr vfz vstop vwfault]; rewrite app_nil_r; reflexivity| | | | | | | |];
+        [cbn [v vA vX vP vY vD vrsr vrmsw vwmsr vfz vstop vwfault]; rewrite app_nil_r; reflexivity| | | | | | | | | | |];
         cbn [v vfz vwmsr vwfault vY vstop]; auto.
       * intros H. rewrite Emsr, H. reflexivity.
       * intros A B. rewrite Emsr, A in B. exact B.
       * intros H. apply orb_true_iff in H. destruct H as [H|H]; [left; exact H|right; exact (Hst H)].
       * intros A B. congruence.
+      * intros H. apply orb_true_iff in H. destruct H as [H|H]; [left; exact H|right].
+        rewrite Emsr, (Hst H). apply orb_true_r.
+      * intros H. rewrite H. reflexivity.
+      * intros A B. rewrite Emsr, A in B. cbn [orb] in B. rewrite Esn, B, A. cbn. apply orb_true_r.
   - apply (act_ALinv w sd g p p' x' sn Ep Hout Hnew Hchan).
   - destruct sd; reflexivity.
 Qed.
@@ -680,17 +690,23 @@ Lemma drop_views w w' sd fr tl :
   path w (other sd) = fr :: tl -> path w' (other sd) = tl -> path w' sd = path w sd ->
   (forall s2 f, e_prox (get_end w' s2) f = e_prox (get_end w s2) f) ->
   (forall f, fid_is f fr = true -> sf_cmd fr <> CStop -> vwmsr (view_of w (other sd) f) = true) ->
+  (forall f, fid_is f fr = true -> sf_cmd fr = CStop -> vrmsw (view_of w sd f) = true) ->
   forall rs f, vstep (view_of w rs f) (view_of w' rs f).
 Proof.
-  intros Hp Hp' Hq Hf Hclosed rs f.
+  intros Hp Hp' Hq Hf Hclosed Hclosed2 rs f.
   destruct (side_eq_dec rs sd) as [->|Hne].
   - assert (E : view_of w' sd f =
       mkView (vA (view_of w sd f)) (vX (view_of w sd f)) (vP (view_of w sd f)) (vY (view_of w sd f)) (vD (view_of w sd f))
              (vrsr (view_of w sd f)) (vrmsw (view_of w sd f)) (vwmsr (view_of w sd f)) (vfz (view_of w sd f))
              (existsb (is_stop_of f) tl) (vwfault (view_of w sd f))).
     { unfold view_of, rprox, wprox. rewrite !Hf, Hq, Hp'. reflexivity. }
-    rewrite E. apply VS_stop_gone. unfold view_of. cbn [vstop]. rewrite Hp. cbn [existsb].
-    intros H. rewrite H. apply orb_true_r.
+    assert (Est : vstop (view_of w sd f) = (is_stop_of f fr || existsb (is_stop_of f) tl))
+      by (unfold view_of; cbn [vstop]; rewrite Hp; reflexivity).
+    rewrite E. apply VS_stop_gone.
+    + rewrite Est. intros H. rewrite H. apply orb_true_r.
+    + rewrite Est. intros H1 H2. rewrite H2, orb_false_r in H1. unfold is_stop_of in H1.
+      apply andb_true_iff in H1. destruct H1 as [H1 H3]. apply Hclosed2; [exact H1|].
+      unfold is_stop in H3. destruct (sf_cmd fr); try discriminate. reflexivity.
   - assert (rs = other sd) by (destruct rs, sd; try reflexivity; contradiction). subst rs.
     destruct (fid_is f fr) eqn:Ef.
     + assert (E : view_of w' (other sd) f =
@@ -757,8 +773,10 @@ Proof.
     destruct Eold as [Eo1 Eo2].
     rewrite E. destruct Hcase as [(Hc & ->)|[(Hc & A & B & C)|(Hc & A & B & C)]].
     + cbn [m_sw]. rewrite <- Eo1.
-      apply VS_stop_gone. rewrite Eo2. intros H. rewrite H. apply orb_true_r.
-    + rewrite B, <- Eo1. apply VS_stop_gone. rewrite Eo2. intros H. rewrite H. apply orb_true_r.
+      apply VS_stop_gone; rewrite Eo2; [intros H; rewrite H; apply orb_true_r|].
+      intros H1 H2. rewrite H2 in H1. unfold is_stop in H1. rewrite Hc in H1. discriminate.
+    + rewrite B, <- Eo1. apply VS_stop_gone; rewrite Eo2; [intros H; rewrite H; apply orb_true_r|].
+      intros H1 H2. rewrite H2 in H1. unfold is_stop in H1. rewrite Hc in H1. discriminate.
     + rewrite A. apply VS_stop_rcvd.
       * rewrite Eo2. unfold is_stop. rewrite Hc. reflexivity.
       * rewrite Eo2. intros H. rewrite H. apply orb_true_r.
@@ -829,6 +847,9 @@ Proof.
       * intros _ H; discriminate.
       * auto.
       * intros _ H. left. apply Hfault. exact H.
+      * intros H. left. exact H.
+      * auto.
+      * intros _ H. discriminate.
   - (* direction server -> client: the reader end appears *)
     apply vstep2_one. set (v := view_of w Server g).
     assert (Eold : vA v = [] /\ vX v = [] /\ vrsr v = false /\ vrmsw v = false).
@@ -967,13 +988,13 @@ Lemma unregistered_closed w sd fr tl f :
   Winv w -> ALinv w -> path w (other sd) = fr :: tl ->
   fid_is f fr = true -> sf_cmd fr <> CConnect ->
   x_chan (e_mux (get_end w sd)) (sf_ch fr) = None ->
-  vwmsr (view_of w (other sd) f) = true.
+  vwmsr (view_of w (other sd) f) = true /\ vrmsw (view_of w sd f) = true.
 Proof.
   intros W [A1 A2 A3 A4 A5 A6] Hp Hf Hc Hx.
   assert (Hfid : sf_fid fr = Some f).
   { unfold fid_is, same_fid in Hf. destruct (sf_fid fr) as [h|]; [|discriminate]. apply N.eqb_eq in Hf. congruence. }
   assert (Hin : In fr (path w (other sd))) by (rewrite Hp; left; reflexivity).
-  unfold view_of, wprox. cbn [vwmsr]. rewrite oth_oth.
+  unfold view_of, wprox, rprox. cbn [vwmsr vrmsw]. rewrite oth_oth.
   pose proof (Winv_get w sd W) as R.
   assert (Hw : exists p, e_prox (get_end w sd) f = Some p /\ m_chan (p_m p) = sf_ch fr).
   { destruct sd; cbn [other get_end] in *.
@@ -988,7 +1009,7 @@ Proof.
         rewrite Hf in E. inversion E; subst frc. contradiction. }
   destruct Hw as (p & Hp0 & Ech). rewrite Hp0. cbn [pM].
   destruct (closed (p_m p)) eqn:Ecl.
-  - unfold closed in Ecl. apply andb_true_iff in Ecl. apply Ecl.
+  - unfold closed in Ecl. apply andb_true_iff in Ecl. exact Ecl.
   - pose proof (r_open _ R f p Hp0 Ecl) as Hreg. rewrite Ech in Hreg. congruence.
 Qed.
 
@@ -1075,7 +1096,8 @@ Proof.
         assert (Hq : path w' sd = path w sd) by (rewrite Hq0; reflexivity).
         split.
         - intros rs f. apply vstep2_one. apply (drop_views w w' sd fr tl Hp Hp' Hq (Hsameprox eq_refl)).
-          intros f0 _ Hc. congruence.
+          + intros f0 _ Hc. congruence.
+          + intros f0 Hf0 _. apply (unregistered_closed w sd fr tl f0 W AL Hp Hf0); [congruence|exact Ech].
         - apply (AL_pop w w' sd fr tl [] AL (Hshape_same eq_refl) Hp Hp'); [rewrite app_nil_r; exact Hq|constructor|].
           intros _. congruence. }
     destruct (e_prox e g) as [p|] eqn:Epg; [|discriminate].
@@ -1105,7 +1127,8 @@ Proof.
         assert (Hq : path w' sd = path w sd) by (rewrite Hq0; reflexivity).
         split.
         - intros rs f. apply vstep2_one. apply (drop_views w w' sd fr tl Hp Hp' Hq (Hsameprox eq_refl)).
-          intros f0 Hf0 _. apply (unregistered_closed w sd fr tl f0 W AL Hp Hf0); [congruence|exact Ech].
+          + intros f0 Hf0 _. apply (unregistered_closed w sd fr tl f0 W AL Hp Hf0); [congruence|exact Ech].
+          + intros f0 _ Hc. congruence.
         - apply (AL_pop w w' sd fr tl [] AL (Hshape_same eq_refl) Hp Hp'); [rewrite app_nil_r; exact Hq|constructor|].
           intros _. congruence. }
     destruct (e_prox e g) as [p|] eqn:Epg; [|discriminate].
@@ -1135,7 +1158,8 @@ Proof.
         assert (Hq : path w' sd = path w sd) by (rewrite Hq0; reflexivity).
         split.
         - intros rs f. apply vstep2_one. apply (drop_views w w' sd fr tl Hp Hp' Hq (Hsameprox eq_refl)).
-          intros f0 Hf0 _. apply (unregistered_closed w sd fr tl f0 W AL Hp Hf0); [congruence|exact Ech].
+          + intros f0 Hf0 _. apply (unregistered_closed w sd fr tl f0 W AL Hp Hf0); [congruence|exact Ech].
+          + intros f0 _ Hc. congruence.
         - apply (AL_pop w w' sd fr tl [] AL (Hshape_same eq_refl) Hp Hp'); [rewrite app_nil_r; exact Hq|constructor|].
           intros _. congruence. }
     destruct (e_prox e g) as [p|] eqn:Epg; [|discriminate].
